@@ -1,6 +1,7 @@
 """C01 -- only validated response frames are ever delivered as results (byte level + delivery)."""
 from __future__ import annotations
 from ..runner import Stage
+from .. import proto_common as PCM
 from .. import frames as F, coqrun as C, respcases as R
 
 
@@ -75,7 +76,7 @@ SPEC = dict(
              'unit address and MBAP fields are not checked by the code and not demanded by the property.',
         technique='Coq proof over regenerated model (py2v) + translator validation + accept=>wf monitor + protocol trace validation',
         design_ref='DESIGN.md section 5 (C01)'),
-    stages=[stage_translation, stage_monitor],
+    stages=[stage_translation, stage_monitor, PCM.stage_for('C01')],
     theorems=['C01_total', 'C01_rtu_read_sound', 'C01_rtu_write_sound', 'C01_rtu_write_multi_sound', 'C01_tcp_read_sound',
               'C01_tcp_write_sound', 'C01_tcp_write_multi_sound', 'C01_aa55_read_sound', 'C01_aa55_write_sound',
               'C01_aa55_write_multi_sound', 'C01_aa55_generic_sound', 'C01_crc'],
